@@ -1,3 +1,451 @@
 package main
 
-func srcOrder(fn string) string { return "todo" }
+// Source-order extraction (go/ast over $VERIF_REPO): for each anchored function, the order
+// in which it makes the calls the model knows as steps, how the error of each call is
+// treated, and where the function returns success.  The result is compared by the Lean
+// driver with the step lists of the model, so reordering calls, dropping an error check or
+// adding an early success return in the source breaks the correspondence.
+//
+// Tokens:  <step>!   the call's error leads to `return …, err` (first result nil) before
+//                    anything else happens
+//          <step>!~  same, but db.ErrNotImplemented is let through
+//          <step>?   the error is ignored (assigned to _, or only the err == nil branch is used)
+//          <step>#…  anything else (unrecognised shape: fails the comparison)
+//          ret       a success return (last result is the literal nil)
+//
+// `DoWithContext` is not parsed but executed: the real webhook client runs against a local
+// server for every pair (answer to the first attempt, answer to the second attempt).
+
+import (
+	"context"
+	"fmt"
+	"go/ast"
+	"go/parser"
+	"go/token"
+	"net/http"
+	"os"
+	"path/filepath"
+	"strings"
+	"sync"
+	"time"
+
+	"github.com/smallstep/certificates/authority/provisioner"
+	"github.com/smallstep/certificates/webhook"
+)
+
+type fnSpec struct {
+	file  string
+	recv  string            // receiver type name ("" = any)
+	watch map[string]string // callee name → step token, or "@name" = inline that function here
+}
+
+var specs = map[string]fnSpec{
+	"authorizeToken": {"authority/authorize.go", "Authority", map[string]string{"UseToken": "@UseToken"}},
+	"UseToken":       {"authority/authorize.go", "Authority", map[string]string{"UseToken": "useToken"}},
+	"authorizeSign":  {"authority/authorize.go", "Authority", map[string]string{"authorizeToken": "@authorizeToken", "AuthorizeSign": "check"}},
+	"authorizeRenew": {"authority/authorize.go", "Authority", map[string]string{"IsRevoked": "isRevoked",
+		"LoadProvisionerByCertificate": "@LoadProvisionerByCertificate", "AuthorizeRenew": "check"}},
+	"LoadProvisionerByCertificate": {"authority/provisioners.go", "Authority", map[string]string{"unsafeLoadProvisionerFromDatabase": "readData"}},
+	"signX509": {"authority/tls.go", "Authority", map[string]string{"Valid": "check", "callEnrichingWebhooksX509": "enrich",
+		"isAllowedToSignX509Certificate": "check", "callAuthorizingWebhooksX509": "authorize", "CreateCertificate": "casSign",
+		"storeCertificate": "store"}},
+	"renewContext": {"authority/tls.go", "Authority", map[string]string{"authorizeRenew": "@authorizeRenew", "ValidateCertificate": "check",
+		"RenewCertificate": "casSign", "storeRenewedCertificate": "@StoreRenewedCertificate"}},
+	"StoreRenewedCertificate": {"db/db.go", "DB", map[string]string{"GetCertificateData": "readData", "Update": "store"}},
+	"Revoke": {"authority/tls.go", "Authority", map[string]string{"GetCertificate": "readCert", "LoadProvisionerByToken": "check",
+		"LoadProvisionerByCertificate": "@LoadProvisionerByCertificate", "revokeSSH": "storeRev", "RevokeCertificate": "casRevoke", "revoke": "storeRev"}},
+	"signSSH": {"authority/ssh.go", "Authority", map[string]string{"Valid": "check", "callEnrichingWebhooksSSH": "enrich",
+		"isAllowedToSignSSHCertificate": "check", "callAuthorizingWebhooksSSH": "authorize", "CreateCertificate": "casSign",
+		"storeSSHCertificate": "store"}},
+	"renewSSH": {"authority/ssh.go", "Authority", map[string]string{"authorizeSSHCertificate": "isRevoked", "CreateCertificate": "casSign",
+		"storeRenewedSSHCertificate": "store"}},
+	"rekeySSH": {"authority/ssh.go", "Authority", map[string]string{"authorizeSSHCertificate": "isRevoked", "CreateCertificate": "casSign",
+		"Valid": "check", "storeRenewedSSHCertificate": "store"}},
+	"Finalize": {"acme/order.go", "Order", map[string]string{"UpdateStatus": "status", "getAuthorizationFingerprint": "acmeRead",
+		"AuthorizeSign": "check", "SignWithContext": "sign", "CreateCertificate": "acmeStoreCert", "UpdateOrder": "acmeUpdateOrder"}},
+}
+
+func repoRoot() string {
+	if r := os.Getenv("VERIF_REPO"); r != "" {
+		return r
+	}
+	return "/repo"
+}
+
+func calleeName(c *ast.CallExpr) string {
+	switch f := c.Fun.(type) {
+	case *ast.SelectorExpr:
+		return f.Sel.Name
+	case *ast.Ident:
+		return f.Name
+	}
+	return ""
+}
+
+func isIdent(e ast.Expr, name string) bool {
+	id, ok := e.(*ast.Ident)
+	return ok && id.Name == name
+}
+
+// mentions reports whether expression e contains the binary comparison `err <op> nil`.
+func errCmp(e ast.Expr, op token.Token) bool {
+	found := false
+	ast.Inspect(e, func(n ast.Node) bool {
+		if b, ok := n.(*ast.BinaryExpr); ok && b.Op == op && isIdent(b.Y, "nil") {
+			if id, ok := b.X.(*ast.Ident); ok && strings.HasSuffix(strings.ToLower(id.Name), "err") {
+				found = true
+			}
+		}
+		return true
+	})
+	return found
+}
+
+func mentionsNotImplemented(e ast.Expr) bool {
+	found := false
+	ast.Inspect(e, func(n ast.Node) bool {
+		if s, ok := n.(*ast.SelectorExpr); ok && s.Sel.Name == "ErrNotImplemented" {
+			found = true
+		}
+		return true
+	})
+	return found
+}
+
+// guardOf classifies an `if` that tests the error of a watched call.
+func guardOf(ifs *ast.IfStmt) string {
+	if errCmp(ifs.Cond, token.EQL) && !errCmp(ifs.Cond, token.NEQ) {
+		return "?" // only the success branch is used
+	}
+	if !errCmp(ifs.Cond, token.NEQ) {
+		return "#nocheck"
+	}
+	if len(ifs.Body.List) == 0 {
+		return "?"
+	}
+	ret := lastReturn(ifs.Body)
+	if ret == nil {
+		// `if err != nil { … if <fallback fails> { return nil, err } }`: the error is replaced by a fallback
+		if inner, ok := ifs.Body.List[len(ifs.Body.List)-1].(*ast.IfStmt); ok && inner.Else == nil {
+			if r := lastReturn(inner.Body); r != nil && len(r.Results) > 0 && !isIdent(r.Results[len(r.Results)-1], "nil") {
+				return "!f"
+			}
+		}
+		return "#noreturn"
+	}
+	n := len(ret.Results)
+	if n == 0 {
+		return "#nakedreturn"
+	}
+	if isIdent(ret.Results[n-1], "nil") {
+		return "#returnsnil"
+	}
+	if n > 1 && !isIdent(ret.Results[0], "nil") {
+		return "#returnsvalue"
+	}
+	if mentionsNotImplemented(ifs.Cond) {
+		return "!~"
+	}
+	return "!"
+}
+
+// lastReturn: the return statement every path through the block ends in (last statement a
+// return, or a switch / if-else whose every branch ends in a qualifying return).
+func lastReturn(b *ast.BlockStmt) *ast.ReturnStmt {
+	if len(b.List) == 0 {
+		return nil
+	}
+	switch s := b.List[len(b.List)-1].(type) {
+	case *ast.ReturnStmt:
+		return s
+	case *ast.SwitchStmt:
+		var first *ast.ReturnStmt
+		hasDefault := false
+		for _, c := range s.Body.List {
+			cc := c.(*ast.CaseClause)
+			if cc.List == nil {
+				hasDefault = true
+			}
+			r := lastReturn(&ast.BlockStmt{List: cc.Body})
+			if r == nil || len(r.Results) == 0 || isIdent(r.Results[len(r.Results)-1], "nil") {
+				return nil
+			}
+			if len(r.Results) > 1 && !isIdent(r.Results[0], "nil") {
+				return nil
+			}
+			if first == nil {
+				first = r
+			}
+		}
+		if !hasDefault {
+			return nil
+		}
+		return first
+	}
+	return nil
+}
+
+type extractor struct {
+	out   []string
+	depth int
+}
+
+func (x *extractor) fn(name string) {
+	sp, ok := specs[name]
+	if !ok {
+		x.out = append(x.out, "#nospec-"+name)
+		return
+	}
+	if x.depth > 4 {
+		x.out = append(x.out, "#depth")
+		return
+	}
+	fset := token.NewFileSet()
+	f, err := parser.ParseFile(fset, filepath.Join(repoRoot(), sp.file), nil, 0)
+	if err != nil {
+		x.out = append(x.out, "#parse")
+		return
+	}
+	var decl *ast.FuncDecl
+	for _, d := range f.Decls {
+		fd, ok := d.(*ast.FuncDecl)
+		if !ok || fd.Name.Name != name || fd.Body == nil {
+			continue
+		}
+		if sp.recv != "" {
+			if fd.Recv == nil || len(fd.Recv.List) == 0 {
+				continue
+			}
+			t := fd.Recv.List[0].Type
+			if st, ok := t.(*ast.StarExpr); ok {
+				t = st.X
+			}
+			if !isIdent(t, sp.recv) {
+				continue
+			}
+		}
+		decl = fd
+	}
+	if decl == nil {
+		x.out = append(x.out, "#missing-"+name)
+		return
+	}
+	x.block(decl.Body, sp, decl.Type.Results != nil && len(decl.Type.Results.List) > 0)
+}
+
+func (x *extractor) emit(sp fnSpec, call *ast.CallExpr, guard string) {
+	tok := sp.watch[calleeName(call)]
+	if strings.HasPrefix(tok, "@") {
+		if guard != "!" && guard != "!~" && guard != "?" && guard != "!f" {
+			x.out = append(x.out, tok[1:]+guard)
+			return
+		}
+		before := len(x.out)
+		x.depth++
+		x.fn(tok[1:])
+		x.depth--
+		// an inlined function's own success return is not a return of the caller
+		if n := len(x.out); n > before && x.out[n-1] == "ret" {
+			x.out = x.out[:n-1]
+		}
+		if guard == "!~" { // the caller lets ErrNotImplemented of the inlined store through
+			for i := before; i < len(x.out); i++ {
+				if x.out[i] == "store!" {
+					x.out[i] = "store!~"
+				}
+			}
+		}
+		return
+	}
+	x.out = append(x.out, tok+guard)
+}
+
+// watchedCalls lists the watched calls inside node n (not descending into function literals).
+func watchedCalls(n ast.Node, sp fnSpec) []*ast.CallExpr {
+	var cs []*ast.CallExpr
+	if n == nil {
+		return nil
+	}
+	ast.Inspect(n, func(m ast.Node) bool {
+		if _, ok := m.(*ast.FuncLit); ok {
+			return false
+		}
+		if c, ok := m.(*ast.CallExpr); ok {
+			if _, w := sp.watch[calleeName(c)]; w {
+				cs = append(cs, c)
+			}
+		}
+		return true
+	})
+	return cs
+}
+
+func errIgnored(as *ast.AssignStmt) bool {
+	if len(as.Lhs) == 0 {
+		return false
+	}
+	return isIdent(as.Lhs[len(as.Lhs)-1], "_")
+}
+
+func (x *extractor) block(b *ast.BlockStmt, sp fnSpec, hasResults bool) {
+	for i, st := range b.List {
+		x.stmt(st, b.List[i+1:], sp, hasResults)
+	}
+}
+
+func (x *extractor) stmt(st ast.Stmt, rest []ast.Stmt, sp fnSpec, hasResults bool) {
+	switch s := st.(type) {
+	case *ast.IfStmt:
+		// calls in the init statement / condition are guarded by this very if
+		for _, c := range watchedCalls(s.Init, sp) {
+			if as, ok := s.Init.(*ast.AssignStmt); ok && errIgnored(as) {
+				x.emit(sp, c, "?")
+			} else {
+				x.emit(sp, c, guardOf(s))
+			}
+		}
+		for _, c := range watchedCalls(s.Cond, sp) {
+			x.emit(sp, c, "#incond")
+		}
+		x.block(s.Body, sp, hasResults)
+		switch e := s.Else.(type) {
+		case *ast.BlockStmt:
+			x.block(e, sp, hasResults)
+		case *ast.IfStmt:
+			x.stmt(e, nil, sp, hasResults)
+		}
+	case *ast.AssignStmt:
+		cs := watchedCalls(s, sp)
+		if len(cs) == 0 {
+			return
+		}
+		g := "#unchecked"
+		if errIgnored(s) {
+			g = "?"
+		} else if len(rest) > 0 {
+			if ifs, ok := rest[0].(*ast.IfStmt); ok && ifs.Init == nil {
+				g = guardOf(ifs)
+			} else if sw, ok := rest[0].(*ast.SwitchStmt); ok && sw.Tag == nil { // switch { case err != nil: return … }
+				g = "#switch"
+				if len(sw.Body.List) > 0 {
+					cc := sw.Body.List[0].(*ast.CaseClause)
+					if len(cc.List) == 1 && errCmp(cc.List[0], token.NEQ) {
+						if r := lastReturn(&ast.BlockStmt{List: cc.Body}); r != nil && len(r.Results) > 0 && !isIdent(r.Results[len(r.Results)-1], "nil") {
+							g = "!"
+						}
+					}
+				}
+			}
+		}
+		for _, c := range cs {
+			x.emit(sp, c, g)
+		}
+	case *ast.ReturnStmt:
+		cs := watchedCalls(s, sp)
+		for _, c := range cs {
+			x.emit(sp, c, "!") // the callee's error is the function's result
+		}
+		if len(cs) > 0 {
+			return
+		}
+		if n := len(s.Results); (n > 0 && isIdent(s.Results[n-1], "nil")) || (n == 0 && !hasResults) {
+			x.out = append(x.out, "ret")
+		}
+	case *ast.BlockStmt:
+		x.block(s, sp, hasResults)
+	case *ast.ForStmt:
+		x.block(s.Body, sp, hasResults)
+	case *ast.RangeStmt:
+		x.block(s.Body, sp, hasResults)
+	case *ast.SwitchStmt:
+		for _, c := range s.Body.List {
+			x.block(&ast.BlockStmt{List: c.(*ast.CaseClause).Body}, sp, hasResults)
+		}
+	case *ast.TypeSwitchStmt:
+		for _, c := range s.Body.List {
+			x.block(&ast.BlockStmt{List: c.(*ast.CaseClause).Body}, sp, hasResults)
+		}
+	case *ast.ExprStmt:
+		for _, c := range watchedCalls(s, sp) {
+			x.emit(sp, c, "#discarded")
+		}
+	case *ast.DeclStmt, *ast.DeferStmt, *ast.GoStmt:
+		for _, c := range watchedCalls(s, sp) {
+			x.emit(sp, c, "#unchecked")
+		}
+	}
+}
+
+func srcOrder(fn string) string {
+	if fn == "DoWithContext" {
+		return webhookTable()
+	}
+	x := &extractor{}
+	x.fn(fn)
+	if len(x.out) == 0 {
+		return "-"
+	}
+	// adjacent in-process checks / ACME reads are reported once
+	var out []string
+	for _, t := range x.out {
+		if n := len(out); n > 0 && out[n-1] == t && (t == "check!" || t == "acmeRead!") {
+			continue
+		}
+		out = append(out, t)
+	}
+	return strings.Join(out, ",")
+}
+
+// webhookTable runs the real client (Webhook.DoWithContext + the controller's allow test)
+// for every (first answer, second answer) pair and reports allow / refuse and the number of
+// attempts made:  ok=A1A1A1A1A1 error=A2R2R2R2R2 …  (columns: ok error timeout deny malformed).
+func webhookTable() string {
+	kinds := []string{"ok", "error", "timeout", "deny", "malformed"}
+	srv := webhookServer()
+	defer srv.Close()
+	cells := make([][]string, len(kinds))
+	var wg sync.WaitGroup
+	for i := range kinds {
+		cells[i] = make([]string, len(kinds))
+		for j := range kinds {
+			wg.Add(1)
+			go func(i, j int) {
+				defer wg.Done()
+				rec := &Recorder{}
+				var fs []Fault
+				if kinds[i] != "ok" {
+					fs = append(fs, Fault{Pos: 0, Kind: kinds[i]})
+				}
+				if kinds[j] != "ok" {
+					fs = append(fs, Fault{Pos: 1, Kind: kinds[j]})
+				}
+				rec.start(fs)
+				closed, release := closedAddr()
+				defer release()
+				tr := &faultTransport{rec: rec, base: &http.Transport{DisableKeepAlives: true}, closed: closed}
+				cl := &http.Client{Transport: tr, Timeout: 300 * time.Millisecond}
+				wh := &provisioner.Webhook{ID: "t", Name: "t", URL: srv.URL + "/enrich/0", Kind: "ENRICHING"}
+				req, err := webhook.NewRequestBody()
+				if err != nil {
+					cells[i][j] = "X"
+					return
+				}
+				ctx, cancel := context.WithTimeout(context.Background(), 10*time.Second)
+				defer cancel()
+				resp, err := wh.DoWithContext(ctx, cl, func(t *http.Transport) http.RoundTripper { return t }, req, nil)
+				ev := rec.stop()
+				v := "R"
+				if err == nil && resp != nil && resp.Allow {
+					v = "A"
+				}
+				cells[i][j] = fmt.Sprintf("%s%d", v, len(ev))
+			}(i, j)
+		}
+	}
+	wg.Wait()
+	var rows []string
+	for i, k := range kinds {
+		rows = append(rows, k+"="+strings.Join(cells[i], ""))
+	}
+	return strings.Join(rows, " ")
+}
